@@ -38,6 +38,14 @@ POOL = [
     ["dict", 924, []], ["dict", 925, [[["int", 1], ["str", "a"]]]], ["dict", 926, [[["str", "a"], ["int", 1]]]],
     ["inst", "A", 1], ["int", 300], ["float", 0.0], ["str", "ab"],
     ["list", 930, [["tuple", 931, [["int", 1], ["bool", True]]], ["tuple", 932, [["int", 1], ["int", 1]]]]],
+    # deeper nesting
+    ["tuple", 940, [["tuple", 941, [["int", 1]]], ["str", "a"]]], ["tuple", 942, [["list", 943, [["int", 1]]]]],
+    ["list", 944, [["dict", 945, [[["str", "a"], ["int", 1]]]]]], ["dict", 946, [[["int", 1], ["list", 947, [["str", "a"]]]]]],
+    ["dict", 948, [[["str", "a"], ["tuple", 949, [["int", 1], ["str", "a"]]]]]], ["list", 950, [["set", 951, [["int", 1]]]]],
+    ["tuple", 952, [["inst", "B", 0], ["inst", "A", 0]]], ["list", 953, [["inst", "B", 0]]], ["list", 954, [["class", "bool"]]],
+    ["tuple", 955, [["bool", True], ["float", 1.5]]], ["frozenset", [["str", "a"]]], ["set", 956, [["tuple", 957, [["int", 1]]]]],
+    ["list", 958, [["ie", "x"]]], ["tuple", 959, [["e", "a"], ["none"]]], ["dict", 960, [[["bool", True], ["none"]]]],
+    ["list", 961, [["list", 962, [["list", 963, [["int", 1]]]]]]], ["tuple", 964, [["str", "a"], ["str", "b"], ["str", "c"]]],
 ]
 
 # enum classes as *types* are out of fragment (their generic bases through EnumMeta are not modelled); enum members stay
@@ -159,12 +167,13 @@ def run(tier: str, replay: str | None = None):
         cases = [json.loads(Path(replay).read_text())["input"]]
     else:
         cases = list(load_corpus())
-        n = 700 if tier == "quick" else 7000
+        n = 6000 if tier == "quick" else 30000
         for _ in range(n):
             any_ok = rng.random() < 0.2
-            a = gen_static(rng, 3, any_ok)
+            dep = 4 if rng.random() < 0.25 else 3
+            a = gen_static(rng, dep, any_ok)
             r = rng.random()
-            b = narrow(a, rng) if r < 0.55 else (a if r < 0.62 else gen_static(rng, 3, any_ok))
+            b = narrow(a, rng) if r < 0.55 else (a if r < 0.62 else gen_static(rng, dep, any_ok))
             c = narrow(a, rng) if rng.random() < 0.5 else gen_static(rng, 2, any_ok)
             a, b, c = G.fix_labels([a, b, c])
             cases.append({"a": a, "b": b, "c": c})
@@ -212,7 +221,7 @@ def run(tier: str, replay: str | None = None):
     if model_ok:
         try:
             results = lib.coq_eval(HEADER + f"Definition pool : list obj := {pool_term}.\n", [r["term"] for r in rows], name="c04",
-                                   shard=100 if tier == "quick" else 300, jobs=6)
+                                   shard=300, jobs=6)
             for r, res in zip(rows, results):
                 ab, ab_x, ac, aa, aa_x, (ma, mb), (bare, varfix, hasany, unsafe, variadic, newtype) = res
                 r["model"] = {"ab": ab, "ab_x": ab_x, "ac": ac, "aa": aa, "aa_x": aa_x}
@@ -278,7 +287,7 @@ def run(tier: str, replay: str | None = None):
     rep.coverage.update(
         evaluations=len(rows) * 5,
         distinct_nontrivial=len(distinct),
-        rule="a case = (A, B, C) of static values up to depth 3 (classes, literals incl. containers, NewType, unions, Annotated, type[...], "
+        rule="a case = (A, B, C) of static values up to depth 3-4 (classes, literals incl. containers, NewType, unions, Annotated, type[...], "
         "generics over 9 classes, fixed tuples, rarely unpacked members, Any in 20%% of the cases); B is a narrowing of A in 55%% of the cases; "
         "5 verdicts per case (A<-B, A<-B exclude-Any, A<-C, A<-A both modes) are compared model vs implementation; 7 laws are evaluated on the "
         "real code; soundness is checked for every accepted Any-free pair against a pool of %d objects" % len(POOL),
